@@ -30,6 +30,15 @@ impl RecT {
     #[verifier::external_body] pub fn refs(&self) -> usize { unimplemented!() }
     #[verifier::external_body] pub fn properties(&self) -> &PropsT { unimplemented!() }
 }
+//@item foyer-common/src/properties.rs :: enum Location rules=derive-structural
+pub struct CachePropsT { }
+impl CachePropsT {
+    #[verifier::external_body] pub fn with_phantom(self, phantom: bool) -> CachePropsT { unimplemented!() }
+    #[verifier::external_body] pub fn location(&self) -> Option<Location> { unimplemented!() }
+}
+/// `Arc::new(Record::new(Data { key, value, properties, hash, weight }))`
+#[verifier::external_body]
+pub fn verif_record(key: u64, value: u64, properties: CachePropsT, hash: u64, weight: usize) -> RecT { unimplemented!() }
 pub struct Piece { }
 impl Piece { #[verifier::external_body] pub fn new(r: RecT) -> Piece { unimplemented!() } }
 
@@ -137,6 +146,15 @@ impl CacheT {
             invariant verif_locks == 0, // @label no_shard_lock_is_held_while_waiters_listeners_and_pipe_are_served
 //@loop 2 iter=it2
                 invariant verif_locks == 0, // @label no_shard_lock_is_held_while_waiters_listeners_and_pipe_are_served
+//@end
+
+// ---- RawCache::insert_with_properties_inner (whole): weighter and filter run before any shard lock is taken
+//@region foyer-memory/src/raw.rs :: impl~^impl<E, S, I> RawCache<E, S, I> where/fn insert_with_properties_inner name=insert_with_properties_inner whole=1 rules=lock-scope,let-chain sub=@\(self\.inner\.weighter\)\(@self.inner.weighter.call(Ghost(verif_locks), @ sub=@\(self\.inner\.filter\)\(@self.inner.filter.call(Ghost(verif_locks), @ sub=@(?s)Arc::new\(Record::new\(Data \{.*?\}\)\)@verif_record(key, value, properties, hash, weight)@
+//@head
+    fn insert_with_properties_inner(&self, key: u64, value: u64, mut properties: CachePropsT, source: Source) -> (r: EntryT)
+        requires shards_ok(self),
+//@prologue
+        let ghost mut verif_locks: int = 0;
 //@end
 
 // ---- RawCache::evict_all (whole)
